@@ -523,5 +523,17 @@ Lemma legacy_map_count_refuted_l :
   front false false w_maps = Reject K_maps_missing.
 Proof. vm_compute. repeat split. Qed.
 
+(* the pinned tree searched the chromosome in the whole path: in a directory called
+   maps_chr22 the (complete) map set of chromosome 1 was not found *)
+Definition file_chr1_in_chr22_dir : str * list str :=
+  ([109;97;112;115;95;99;104;114;50;50;47;103;46;99;104;114;49;46;109;97;112], map1_lines). (* maps_chr22/g.chr1.map *)
+Definition file_chr1_name_only : str * list str :=
+  ([103;46;99;104;114;49;46;109;97;112], map1_lines).                                         (* g.chr1.map *)
+
+Lemma legacy_dirname_refuted_l :
+  front false false (witness_base [[49]] [file_chr1_in_chr22_dir] None) = Reject K_no_maps /\
+  front false false (witness_base [[49]] [file_chr1_name_only] None) = Accept 20.
+Proof. vm_compute. split; reflexivity. Qed.
+
 Lemma wellformed_satisfiable_l : WellFormed (witness_base [[49]] [file_chr1] (Some (150, 250))).
 Proof. apply validate_iff_wellformed_l. exists 20. vm_compute. reflexivity. Qed.
